@@ -31,7 +31,7 @@ VK = ["scalar", "flat", "flatlist", "colvec", "collist", "ragged", "bad_same_tot
 FLOOR_TAGS = ["vk:" + v for v in VK] + ["mask:scalar", "mask:flat", "r:int", "r:slice+1", "r:slice+k", "r:slice-", "r:list", "r:mask", "r:ell",
                                         "recv:fresh", "recv:lazyrows", "recv:lazycols+2", "recv:lazycols-1", "recv:lazychain", "values:hostile-floats",
                                         "c:none", "c:int+", "c:int-", "c:slice+1", "c:slice+k", "c:slice-", "sel-has-empty-row", "e-first", "e-last", "e-mid", "allempty", "norows"]
-FLOOR_MONITORS = ["c03:footprint", "c03:must-refuse", "c03:bystander", "c03:alias", "c03:parent-untouched", "inv:ragged"]
+FLOOR_MONITORS = ["c03:footprint", "c03:must-refuse", "c03:bystander", "c03:alias", "c03:parent-untouched"]
 N_RANDOM = {"quick": 24000, "thorough": 300000}
 BASE = 100000
 
